@@ -18,7 +18,10 @@ sizes, contents, interleavings and fault sequences.
 Modelled, not verified (assumed behaviour of the environment, stated here once):
 * kernel UDP: one successful `send`/`sendto` = one datagram with exactly these bytes to exactly this destination, a datagram
   longer than `maxDatagram` (65507, IPv4) is refused with an error; a connected client socket only returns datagrams of its peer;
-* `key()` (getnameinfo numeric host:port) is injective on socket addresses, so the string key is identified with `Addr`;
+* `key()` (getnameinfo numeric host:port) is the function `Cfg.key : Addr → Nat` from socket addresses to index keys; the model does
+  NOT assume it injective — the theorems that need "distinct peers have distinct keys" carry the explicit hypothesis `KeyInjective`
+  (and `Props/C06.lean` shows what breaks without it). A `getnameinfo` FAILURE (empty key) is a separate input: the datagram is dropped /
+  the connect-via-listener refused (the FC06a repair), nothing is indexed under the empty key;
 * name resolution in `connectDo`/`viaDo` succeeds and address families match (the failure arms fire a close for the id and create
   nothing; they belong to the lifecycle property C02).
 
@@ -52,8 +55,9 @@ inductive Src | lst (lid : Lid) | cli (sid : Sid)
 /-- largest UDP payload over IPv4 (65535 − 20 − 8); a kernel fact, not a constant of the repository -/
 def maxDatagram : Nat := 65507
 
-/-- largest UDP payload a socket of the given family accepts: IPv6 does not count its own header (65535 − 8) -/
+/-- largest UDP payload for a datagram that travels over IPv6 (`v6`) or IPv4: IPv6 does not count its own header (65535 − 8) -/
 def maxDatagramFor (v6 : Bool) : Nat := if v6 then 65527 else maxDatagram
+
 
 /-- the part of `TransportConfig` the UDP engine consults, plus the two translated facts about the source (`Gen/Udp.lean`) -/
 structure Cfg where
@@ -69,6 +73,11 @@ structure Cfg where
   /-- the same fact for the erase in `shutdownDrain` (either form empties the index there: `Lemmas` prove it) -/
   drainGuarded : Bool := Gen.Udp.shutdownDrainEraseGuarded
   clientOverflowStrict : Bool := Gen.Udp.clientOverflowStrict
+  /-- `key()`: the index key of a socket address (canonical numeric "host:port" string, here a number). Default: the address itself. -/
+  key : Addr → Nat := fun a => a
+  /-- which addresses are IPv4-mapped IPv6 addresses (`::ffff:a.b.c.d`): a datagram to one of them travels over IPv4 even from an IPv6
+  socket, so the IPv4 size limit applies (a kernel fact the environment supplies) -/
+  mapped : Addr → Bool := fun _ => false
   /-- translated facts about the epoll interest masks: does `addEpoll` in `addListenerDo`/`connectDo` arm `EPOLLIN`, does the mask
   rebuilt by `updateListener`/`updateClient` keep it -/
   listenerAddIn : Bool := Gen.Udp.listenerAddArmsIn
@@ -122,7 +131,8 @@ theorem upd_other {α : Type} (m : Nat → Option α) (k : Nat) (v : Option α) 
 structure State where
   sessions : Sid → Option Sess := fun _ => none
   listeners : Lid → Option Lst := fun _ => none
-  peerIndex : Addr → Option Sid := fun _ => none
+  /-- `_peerIndex`: index KEY (`Cfg.key` of a source address) → session -/
+  peerIndex : Nat → Option Sid := fun _ => none
   nextSid : Nat := Gen.Udp.nextSessionIdInit
   nextLid : Nat := Gen.Udp.nextListenerIdInit
   sessionsCurrent : Nat := 0
@@ -134,6 +144,10 @@ inductive In
   | listen (v6 : Bool)
   /-- `EPOLLIN` on listener `lid`: the `recvfrom` loop returns these datagrams (source, bytes) in this order, then `EAGAIN` -/
   | recvFrom (lid : Lid) (dgs : List (Addr × Bytes))
+  /-- `EPOLLIN` on listener `lid` returning `n` datagrams for each of which `key()` failed (getnameinfo error → empty key) -/
+  | recvKeyFail (lid : Lid) (n : Nat)
+  /-- `connectViaListener()` + `viaDo` where `key()` of the target failed -/
+  | viaKeyFail (lid : Lid)
   /-- `EPOLLIN` on the socket of client session `sid`: the `recv` loop returns these datagrams, then `EAGAIN` -/
   | clientRecv (sid : Sid) (dgs : List Bytes)
   /-- `connect()` + `connectDo`: a connected client socket to `addr` (`v6` = the family `addr` resolves to) -/
@@ -169,6 +183,9 @@ inductive Out
   | nullDeref
   deriving DecidableEq, Repr
 
+/-- does a datagram from a socket of family `sockV6` to `dest` travel over IPv6? (not if `dest` is v4-mapped) -/
+def overV6 (cfg : Cfg) (sockV6 : Bool) (dest : Addr) : Bool := sockV6 && !cfg.mapped dest
+
 /-- the kernel refuses a datagram above the maximum of the socket's family (EMSGSIZE) whatever else happens -/
 def kernelAns (v6 : Bool) (p : Bytes) (a : Ans) : Ans := if p.length > maxDatagramFor v6 then .err else a
 
@@ -199,13 +216,13 @@ def closeNow (cfg : Cfg) (st : State) (sid : Sid) (why : Why) : State × List Ou
   match st.sessions sid with
   | none => (st, [])
   | some s =>
-    let idx : Addr → Option Sid :=
+    let idx : Nat → Option Sid :=
       match s.role with
       | .client => st.peerIndex
       | .serverPeer =>
         if cfg.eraseGuarded then
-          (if st.peerIndex s.peer = some sid then upd st.peerIndex s.peer none else st.peerIndex)
-        else upd st.peerIndex s.peer none
+          (if st.peerIndex (cfg.key s.peer) = some sid then upd st.peerIndex (cfg.key s.peer) none else st.peerIndex)
+        else upd st.peerIndex (cfg.key s.peer) none
     ({ st with sessions := upd st.sessions sid none, peerIndex := idx, sessionsCurrent := st.sessionsCurrent - 1 },
      [.closed sid why])
 
@@ -214,14 +231,14 @@ def recvOne (cfg : Cfg) (lid : Lid) (st : State) (d : Addr × Bytes) : State × 
   let got := d.2.take cfg.ioReadChunk          -- recvfrom(buf of ioReadChunk bytes, flags 0): the excess is discarded
   if got = [] then (st, [])                    -- `n == 0 acceptable`: consumed, no event
   else
-    match st.peerIndex d.1 with
+    match st.peerIndex (cfg.key d.1) with
     | none =>
       if capReached cfg st then (st, [])       -- `continue`: dropped, no session, no event
       else
         let sid := st.nextSid
         let s : Sess := { role := .serverPeer, peer := d.1, owner := lid, created := st.now, lastActivity := st.now,
                           lastWriteProgress := st.now }
-        ({ st with sessions := upd st.sessions sid (some s), peerIndex := upd st.peerIndex d.1 (some sid),
+        ({ st with sessions := upd st.sessions sid (some s), peerIndex := upd st.peerIndex (cfg.key d.1) (some sid),
                    nextSid := sid + 1, sessionsCurrent := st.sessionsCurrent + 1 },
          [.accept sid d.1, .data sid got])
     | some sid =>
@@ -273,8 +290,8 @@ def viaDo (cfg : Cfg) (st : State) (lid : Lid) (addr : Addr) (v6 : Bool) : State
     else
       let s : Sess := { role := .serverPeer, peer := addr, owner := lid, created := st.now, lastActivity := st.now,
                         lastWriteProgress := st.now }
-      let idx := match st.peerIndex addr with
-        | none => upd st.peerIndex addr (some sid)
+      let idx := match st.peerIndex (cfg.key addr) with
+        | none => upd st.peerIndex (cfg.key addr) (some sid)
         | some _ => st.peerIndex                 -- `if (!peerExists)`: an existing mapping is kept
       ({ st0 with sessions := upd st.sessions sid (some s), peerIndex := idx, sessionsCurrent := st.sessionsCurrent + 1 },
        [.connected sid addr])
@@ -287,7 +304,7 @@ def sendDo (cfg : Cfg) (tok : Nat) (st : State) (sid : Sid) (p : Bytes) (ans0 : 
     let it : Item := { tok := tok, dest := s.peer, payload := p }
     match s.role with
     | .client =>
-      match kernelAns s.v6 p ans0 with
+      match kernelAns (overV6 cfg s.v6 s.peer) p ans0 with
       | .ok =>
         ({ st with sessions := upd st.sessions sid (some { s with lastActivity := st.now, lastWriteProgress := st.now }) },
          [.sent (.cli sid) s.peer p tok])
@@ -302,7 +319,7 @@ def sendDo (cfg : Cfg) (tok : Nat) (st : State) (sid : Sid) (p : Bytes) (ans0 : 
       match st.listeners s.owner with
       | none => closeNow cfg st sid .unknown
       | some l =>
-        match kernelAns l.v6 p ans0 with
+        match kernelAns (overV6 cfg l.v6 s.peer) p ans0 with
         | .ok =>
           ({ st with sessions := upd st.sessions sid (some { s with lastActivity := st.now, lastWriteProgress := st.now }) },
            [.sent (.lst s.owner) s.peer p tok])
@@ -322,10 +339,10 @@ def nextAns : List Ans → Ans × List Ans
   | a :: as => (a, as)
 
 /-- mirrors udp_engine.hpp::flushListener — the `while (!wq.empty())` loop: (what stays queued, what happened) -/
-def flushLoopL (lid : Lid) (v6 : Bool) : List Item → List Ans → List Item × List Out
+def flushLoopL (lid : Lid) (v6 : Addr → Bool) : List Item → List Ans → List Item × List Out
   | [], _ => ([], [])
   | it :: rest, as =>
-    match kernelAns v6 it.payload (nextAns as).1 with
+    match kernelAns (v6 it.dest) it.payload (nextAns as).1 with
     | .ok => let r := flushLoopL lid v6 rest (nextAns as).2; (r.1, .sent (.lst lid) it.dest it.payload it.tok :: r.2)
     | .eagain => (it :: rest, [])
     | .err => let r := flushLoopL lid v6 rest (nextAns as).2; (r.1, .error :: r.2)   -- dropped, loop goes on
@@ -336,15 +353,15 @@ def flushListener (cfg : Cfg) (st : State) (lid : Lid) (answers : List Ans) : St
   | none => (st, [])
   | some l =>
     if l.armOut then
-      let r := flushLoopL lid l.v6 l.wq answers
+      let r := flushLoopL lid (overV6 cfg l.v6) l.wq answers
       ({ st with listeners := upd st.listeners lid (some (updL cfg { l with wq := r.1, wantWrite := !r.1.isEmpty })) }, r.2)
     else (st, [])
 
 /-- mirrors udp_engine.hpp::writeClient — the loop: (what stays queued, datagrams sent, `true` if a hard error ended it) -/
-def flushLoopC (sid : Sid) (v6 : Bool) : List Item → List Ans → List Item × List Out × Bool
+def flushLoopC (sid : Sid) (v6 : Addr → Bool) : List Item → List Ans → List Item × List Out × Bool
   | [], _ => ([], [], false)
   | it :: rest, as =>
-    match kernelAns v6 it.payload (nextAns as).1 with
+    match kernelAns (v6 it.dest) it.payload (nextAns as).1 with
     | .ok => let r := flushLoopC sid v6 rest (nextAns as).2; (r.1, .sent (.cli sid) it.dest it.payload it.tok :: r.2.1, r.2.2)
     | .eagain => (it :: rest, [], false)
     | .err => (it :: rest, [], true)
@@ -358,7 +375,7 @@ def writeClient (cfg : Cfg) (st : State) (sid : Sid) (answers : List Ans) : Stat
     | .serverPeer => (st, [])
     | .client =>
       if s.armOut then
-        let r := flushLoopC sid s.v6 s.wq answers
+        let r := flushLoopC sid (overV6 cfg s.v6) s.wq answers
         let lwp := if r.2.1.isEmpty then s.lastWriteProgress else st.now
         let s1 : Sess := updC cfg { s with wq := r.1, wantWrite := !r.1.isEmpty, lastWriteProgress := lwp }
         let st1 := { st with sessions := upd st.sessions sid (some s1) }
@@ -397,13 +414,13 @@ def drainOne (cfg : Cfg) (st : State) (sid : Sid) : State × List Out :=
   match st.sessions sid with
   | none => (st, [])
   | some s =>
-    let idx : Addr → Option Sid :=
+    let idx : Nat → Option Sid :=
       match s.role with
       | .client => st.peerIndex
       | .serverPeer =>
         if cfg.drainGuarded then
-          (if st.peerIndex s.peer = some sid then upd st.peerIndex s.peer none else st.peerIndex)
-        else upd st.peerIndex s.peer none
+          (if st.peerIndex (cfg.key s.peer) = some sid then upd st.peerIndex (cfg.key s.peer) none else st.peerIndex)
+        else upd st.peerIndex (cfg.key s.peer) none
     ({ st with peerIndex := idx, sessionsCurrent := st.sessionsCurrent - 1 }, [.closed sid .unknown])
 
 def drainAll (cfg : Cfg) : State → List Sid → State × List Out
@@ -427,6 +444,14 @@ def step (cfg : Cfg) (tok : Nat) (st : State) : In → State × List Out
     match st.listeners lid with
     | none => (st, [])
     | some l => if l.armIn then recvMany cfg lid st dgs else (st, [])     -- not armed: the datagrams stay in the kernel, unseen
+  | .recvKeyFail lid n =>
+    -- mirrors readFromListener with `k.empty()`: each such datagram is reported (`error`) and dropped; no session, no index entry
+    match st.listeners lid with
+    | none => (st, [])
+    | some l => if l.armIn then (st, List.replicate n .error) else (st, [])
+  | .viaKeyFail _ =>
+    -- mirrors viaDo with `k.empty()` (and every earlier refusal): the id handed out by connectViaListener() is closed, nothing is created
+    ({ st with nextSid := st.nextSid + 1 }, [.closed st.nextSid .config])
   | .clientRecv sid dgs =>
     match st.sessions sid with
     | none => (st, [])
